@@ -11,9 +11,12 @@
   The early `return`s of Go are rendered with local continuations (`k1`, `k2`, …: "the rest of the function body").
   Loops are recursions on a fuel that carry the Go loop variables and test the Go loop condition; running out of fuel
   is `.panic fuelMsg`, and the theorems show that this never happens either.
-  The model answers `.nondet` for a map-ordered array of two or more elements (`enum2 t xs`) before it touches the
-  elements; the mirrors perform the same test at the same place (it is the model's nondeterminism marker, not a Go
-  guard).
+  The model answers `.nondet` for a map-ordered array of two or more elements (`enum2 t xs`: the element ORDER is not
+  determined).  That is the model's nondeterminism marker, not a Go branch: the mirrors therefore perform the CHECKED
+  operation first (`idx?`, `slice?`, `make?` and the copy loop — their success depends on the length only, not on the
+  order) and consult the marker only afterwards, to decide whether the value read can be reported.  So the bound
+  check is evaluated for map-ordered arrays too (`values(@)[7]`), and deleting the Go guard falsifies the `…_eq`
+  theorem on those inputs as well.
 -/
 import Jmes.Proofs.C03DChecked
 import Jmes.Properties.C09
@@ -39,7 +42,9 @@ def indexG (gNeg gHi : Bool) (v : Val) (i : Int) : Res Val :=
   match v with
   | .arr t a =>
     -- `return a[i]` (array.go:579)
-    let ret (i : Int) : Res Val := if enum2 t a then .nondet else idx? a i
+    let ret (i : Int) : Res Val := do
+      let x ← idx? a i                            -- a[i]: the bound check comes first, whatever the order of `a`
+      if enum2 t a then .nondet else .ok x        -- (model marker: which element sits at `i` is not determined)
     if i < 0 then
       let i := i + a.length                       -- i += len(a)
       if gNeg && decide (i < 0) then .ok .null    -- if i < 0 { return nil }
@@ -62,18 +67,12 @@ theorem indexC_eq (v : Val) (i : Int) : indexC v i = index v i := by
       by_cases h2 : i + (a.length : Int) < 0
       · rw [if_pos h2, if_pos (Or.inl h2)]
       · have h3 : ¬ (i + (a.length : Int) < 0 ∨ i + (a.length : Int) ≥ a.length) := by omega
-        rw [if_neg h2, if_neg h3]
-        split
-        · rfl
-        · exact idx?_ok a _ (by omega) (by omega) .null
+        rw [if_neg h2, if_neg h3, idx?_ok a _ (by omega) (by omega) .null, Res.ok_bind]
     · rw [if_neg h1, if_neg h1]
       by_cases h2 : i ≥ (a.length : Int)
       · rw [if_pos h2, if_pos (Or.inr h2)]
       · have h3 : ¬ (i < 0 ∨ i ≥ (a.length : Int)) := by omega
-        rw [if_neg h2, if_neg h3]
-        split
-        · rfl
-        · exact idx?_ok a _ (by omega) (by omega) .null
+        rw [if_neg h2, if_neg h3, idx?_ok a _ (by omega) (by omega) .null, Res.ok_bind]
   | _ => rfl
 
 /-- `["a","b","c"][-1]` is `"c"`; `["a","b","c"][3]` and `["a","b","c"][-4]` are `null` -/
@@ -90,6 +89,13 @@ example : indexG true false (.arr .plain abc) 3 = .panic idxMsg := rfl
 /-- guard deletion: without the inner `if i < 0 { return nil }` (array.go:572) the expression `[-4]` on `["a","b","c"]`
     reaches `a[-1]` and panics -/
 example : indexG false true (.arr .plain abc) (-4) = .panic idxMsg := rfl
+/-- the same on a MAP-ORDERED array (`values(@)[3]`, `values(@)[-4]` on an object of three members): the bound check is
+    evaluated before the nondeterminism marker, so the guard-less mirror panics there too … -/
+example : indexG true false (.arr .enum abc) 3 = .panic idxMsg := rfl
+example : indexG false true (.arr .enum abc) (-4) = .panic idxMsg := rfl
+/-- … while the mirror of the source answers `null` out of range and the marker within range -/
+example : indexC (.arr .enum abc) 3 = .ok .null := rfl
+example : indexC (.arr .enum abc) 1 = .nondet := rfl
 
 /-! ## `slice` (slice.go:22), array branch -/
 
@@ -121,10 +127,9 @@ example : clamp1 3 (-1) 5 = some (2, 3) := by decide
     `return a[start:stop]` → `slice?` -/
 def sliceArrTail (gCmp : Bool) (t : ATag) (a : List Val) (start stop : Int) : Res Val :=
   if gCmp && decide (start ≥ stop) then .ok (.arr .plain [])   -- if start >= stop { return []any{} }
-  else if enum2 t a then .nondet
   else do
-    let r ← slice? a start stop                             -- return a[start:stop]
-    .ok (.arr .plain r)
+    let r ← slice? a start stop                             -- return a[start:stop]  (checked first: length only)
+    if enum2 t a then .nondet else .ok (.arr .plain r)      -- (model marker: the order of `a` is not determined)
 
 /-- `slice(v, start, stop)`, array branch slice.go:23-51, with a flag for the guard slice.go:46
     `if start >= stop { return []any{} }` (`true` = present as in the source).
@@ -159,10 +164,7 @@ theorem sliceArrC_eq (t : ATag) (a : List Val) (start stop : Int) :
     simp only [sliceArrTail, Bool.true_and, decide_eq_true_eq]
     by_cases hxy : x ≥ y
     · rw [if_pos hxy, if_pos hxy]
-    · rw [if_neg hxy, if_neg hxy]
-      split
-      · rfl
-      · rw [slice?_ok a x y (by omega) (by omega) (by omega)]; rfl
+    · rw [if_neg hxy, if_neg hxy, slice?_ok a x y (by omega) (by omega) (by omega), Res.ok_bind]
 
 /-- `[1:3]` on `["a","b","c"]` is `["b","c"]`; `[2:1]` is `[]` -/
 example : sliceArrG true .plain abc 1 3 = .ok (.arr .plain [.str [0x62], .str [0x63]]) := rfl
@@ -171,6 +173,10 @@ example : sliceArrG true .plain abc 2 1 = .ok (.arr .plain []) := rfl
 /-- guard deletion: without `if start >= stop { return []any{} }` (slice.go:46) the expression `[2:1]` on
     `["a","b","c"]` reaches `a[2:1]` and panics -/
 example : sliceArrG false .plain abc 2 1 = .panic sliceMsg := rfl
+/-- … also on a map-ordered array (`values(@)[2:1]`): the bounds are checked before the nondeterminism marker -/
+example : sliceArrG false .enum abc 2 1 = .panic sliceMsg := rfl
+example : sliceArrG true .enum abc 2 1 = .ok (.arr .plain []) := rfl
+example : sliceArrG true .enum abc 0 2 = .nondet := rfl
 
 /-! ## `slice`, string branch -/
 
@@ -365,7 +371,7 @@ theorem wrap64_neg_ne_zero (step : Int) (hs : step ≠ 0) (hmin : -2 ^ 63 ≤ st
 /-- the clamp-and-count part of `sliceStep` (slice.go:97-159 and again slice.go:172-234), in continuation style —
     `E` is the early `return` of the empty result, `K start n` the rest of the function body — computes `clampStep`,
     and its divisions `c / step`, `c % step`, `c / s`, `c % s` (→ `div?`, `mod?`) do not divide by zero,
-    PROVIDED `step ≠ 0` (established by the parser: parser.go:1501 rejects a zero step with `invalidSliceStep`,
+    PROVIDED `step ≠ 0` (established by the parser: parser.go:1502 rejects a zero step with `invalidSliceStep`,
     `Jmes.C04.stepPhase_zero`) and `step` is a Go `int` (`-2^63 ≤ step`). -/
 theorem clampStep_cps {β : Type} (l start stop step : Int) (hs : step ≠ 0) (hmin : -2 ^ 63 ≤ step)
     (E : Res β) (K : Int → Int → Res β) :
@@ -548,11 +554,11 @@ example : fillLoopC abc 2 3 3 0 0 [.null, .null, .null] = .panic idxMsg := rfl
 /-- slice.go:161-166, the end of the array branch of `sliceStep`: `r := make([]any, n)` → `make?`, the copy loop,
     `return r` -/
 def sliceStepArrTail (t : ATag) (a : List Val) (step start n : Int) : Res Val :=
-  if enum2 t a then .nondet
-  else do
+  do
     let r ← make? n                                         -- r := make([]any, n)
     let r ← fillLoopC a step n n.toNat 0 start r            -- for i, j := 0, start; i < n; i, j = i+1, j+step { … }
-    .ok (.arr .plain r)                                     -- return r
+    if enum2 t a then .nondet                               -- (model marker, AFTER the checked allocation and copy)
+    else .ok (.arr .plain r)                                -- return r
 
 /-- `sliceStep(v, start, stop, step)`, array branch slice.go:94-167.
     Sites: slice.go:94 `v.([]any)` (comma-ok); slice.go:124 `c / step`, slice.go:125 `c%step`, slice.go:155 `c / s`,
@@ -628,16 +634,14 @@ theorem sliceStepArrC_eq (t : ATag) (a : List Val) (start stop step : Int) (hs :
     obtain ⟨x, n⟩ := ab
     have hb := C09.clampStep_bounds _ _ _ _ _ _ h
     have hr := C11C.clampStep_inRange' _ _ _ _ _ _ (by omega) hs hmin h
-    have hlim : makeLimit = 2 ^ 47 := rfl
+    have hlim : makeLimit = 2 ^ 44 := rfl
     have hn := clampStep_cnt_nonneg _ _ _ _ _ _ hs hmin (by omega) h
     simp only [optK, sliceStepArrTail]
-    split
-    · rfl
-    · rw [make?_ok n hn (by omega), Res.ok_bind]
-      have := fillLoopC_eq a step n n.toNat 0 x [] rfl (by omega) (by
-        intro k hk0 hk; exact hr.2.2 k hk0 (by omega))
-      rw [Int.sub_zero, List.nil_append, List.nil_append] at this
-      rw [this, Res.ok_bind]
+    rw [make?_ok n hn (by omega), Res.ok_bind]
+    have := fillLoopC_eq a step n n.toNat 0 x [] rfl (by omega) (by
+      intro k hk0 hk; exact hr.2.2 k hk0 (by omega))
+    rw [Int.sub_zero, List.nil_append, List.nil_append] at this
+    rw [this, Res.ok_bind]
 
 /-- `[::2]` on `["a","b","c"]` is `["a","c"]`; `[::-1]` (the parser passes `start = MaxInt`, `stop = MinInt`) is
     `["c","b","a"]`; `step = MinInt` selects one element -/
@@ -646,7 +650,7 @@ example : sliceStepArrC .plain abc (2 ^ 63 - 1) (-(2 ^ 63)) (-1)
     = .ok (.arr .plain [.str [0x63], .str [0x62], .str [0x61]]) := rfl
 example : sliceStepArrC .plain abc (2 ^ 63 - 1) (-(2 ^ 63)) (-(2 ^ 63)) = .ok (.arr .plain [.str [0x63]]) := rfl
 
-/-- the hypothesis `step ≠ 0` is needed: with a zero step (which parser.go:1501 rejects) `sliceStep(a, 2, 0, 0)`
+/-- the hypothesis `step ≠ 0` is needed: with a zero step (which parser.go:1502 rejects) `sliceStep(a, 2, 0, 0)`
     reaches `c / s` with `s = 0` (slice.go:155) and panics — while the total model answers `["c"]` -/
 example : sliceStepArrC .plain abc 2 0 0 = .panic divMsg := rfl
 example : sliceStep (.arr .plain abc) 2 0 0 = .ok (.arr .plain [.str [0x63]]) := rfl
@@ -662,13 +666,15 @@ example : sliceStepArrG false true .plain abc 2 0 2 = .panic makeMsg := rfl
 /-- guard deletion: without `else if start >= l { start = l - 1 }` (slice.go:135) the slice `[5::-1]` of
     `["a","b","c"]` reads `a[5]` and panics -/
 example : sliceStepArrG true false .plain abc 5 (-(2 ^ 63)) (-1) = .panic idxMsg := rfl
+/-- … both also on a map-ordered array (`values(@)[2:0:2]`, `values(@)[5::-1]`): allocation and copy are checked before the
+    nondeterminism marker is consulted -/
+example : sliceStepArrG false true .enum abc 2 0 2 = .panic makeMsg := rfl
+example : sliceStepArrG true false .enum abc 5 (-(2 ^ 63)) (-1) = .panic idxMsg := rfl
+example : sliceStepArrC .enum abc 0 (2 ^ 63 - 1) 2 = .nondet := rfl
 
 /-! ## `sliceStep`, string branch -/
 
-def growMsg : String := "strings.Builder.Grow: negative count"
-
-/-- `b.Grow(n)` (slice.go:237): `strings.Builder.Grow` panics on a negative count -/
-def grow? (n : Int) : Res Unit := if n < 0 then .panic growMsg else .ok ()
+/- `b.Grow(n)` (slice.go:237) is `grow?` of `C03DChecked`: `strings.Builder.Grow` panics on a negative count. -/
 
 /-- slice.go:250-253 `for j := 1; j < step && len(s) > 0; j++ { _, sz = utf8.DecodeRuneInString(s); s = s[sz:] }`.
     Site: slice.go:252 `s[sz:]` → `sliceFrom?`.  State: `j`, `s`.  Fuel: `len(s)` (each round removes a byte). -/
@@ -955,7 +961,7 @@ theorem sliceStepStrC_eq (s : Bytes) (start stop step : Int) (hs : step ≠ 0) (
     have hb := C09.clampStep_bounds _ _ _ _ _ _ h
     have hrl := C09.runeCount_le_length s.length s (Nat.le_refl _)
     have hn := clampStep_cnt_nonneg _ _ _ _ _ _ hs hmin (by omega) h
-    have hg : grow? n = .ok () := by unfold grow?; rw [if_neg (by omega)]
+    have hg : grow? n = .ok () := grow?_ok n hn
     simp only [optK, sliceStepStrTail, hg, Res.ok_bind]
     by_cases hpos : step > 0
     · rw [if_pos hpos, if_pos hpos]
@@ -978,7 +984,7 @@ def sliceStepC (v : Val) (start stop step : Int) : Res Val :=
   | _ => .ok .null                                          -- return nil
 
 /-- what the Go runtime guarantees about the size of the operand: an array is no longer than `makeLimit` (else
-    `make([]any, n)` could refuse a count `n ≤ len(a)`; a `[]any` of 2^47 elements would occupy 2^51 bytes), a string is
+    `make([]any, n)` could refuse a count `n ≤ len(a)`; `makeLimit = 2^44 = maxAlloc / 16` is the longest `[]any` the Go runtime allocates), a string is
     shorter than 2^63 bytes (`len` returns an `int`; needed for `step = MinInt` only, where a longer string would
     give a negative count and `b.Grow(n)` would panic) -/
 def SizeOK : Val → Prop
@@ -988,7 +994,7 @@ def SizeOK : Val → Prop
 
 /-- **`sliceStep` never indexes or slices out of range, never divides by zero, never calls `make` or `Grow` with a bad
     count**: for every value (arrays; strings of arbitrary bytes) and all integers `start`, `stop`, and every step that
-    is a non-zero Go `int` — `step ≠ 0` is what parser.go:1501 guarantees (`Jmes.C04.stepPhase_zero`: a zero step is
+    is a non-zero Go `int` — `step ≠ 0` is what parser.go:1502 guarantees (`Jmes.C04.stepPhase_zero`: a zero step is
     the syntax error `invalidSliceStep`), `-2^63 ≤ step` is the type `int` — the checked mirror equals the model
     function `Jmes.sliceStep`. -/
 theorem sliceStepC_eq (v : Val) (start stop step : Int) (hs : step ≠ 0) (hmin : -2 ^ 63 ≤ step) (hsz : SizeOK v) :
@@ -1021,7 +1027,7 @@ open Jmes.Parser Jmes.Pratt Jmes.Lexical Jmes.C04
 def IsStep (n : INode) (st : Int) : Prop :=
   (∃ c x y, n = .sliceStep c x y st) ∨ (∃ x y, n = .sliceStepCurrent x y st)
 
-/-- the last statements of the parser's slice code (parser.go:1519-1533): consume `]`, build the node — a stepped
+/-- the last statements of the parser's slice code (parser.go:1516-1555): consume `]`, build the node — a stepped
     node carries exactly the step `i` -/
 theorem stepFin (child : Option INode) (a b i : Int) (s : PState) (n : INode) (bb : Bool) (s' : PState)
     (h : (do advance2
@@ -1060,11 +1066,11 @@ theorem stepFin (child : Option INode) (a b i : Int) (s : PState) (n : INode) (b
         · injection e with _ _ _ e; exact e.symm
         · cases e
 
-/-- **the caller establishes the hypotheses on `step`**: the third part of a slice expression (parser.go:1494-1533;
+/-- **the caller establishes the hypotheses on `step`**: the third part of a slice expression (parser.go:1490-1555;
     `Jmes.C04.stepPhase`, which is definitionally the tail of the model parser's `indexP`, `C04.indexP_eq`, and the only
     place where the parser builds `sliceStep` / `sliceStepCurrent` nodes) only produces stepped-slice nodes whose step
     is a non-zero Go `int`: the literal is read with `strconv.ParseInt(…, 64)` (`parseInt64`, in range by
-    `C09.parseInt64_in_range`) and parser.go:1501 rejects zero.  These are the hypotheses `hs`, `hmin` of `sliceStepC_eq`
+    `C09.parseInt64_in_range`) and parser.go:1502 rejects zero.  These are the hypotheses `hs`, `hmin` of `sliceStepC_eq`
     for the calls `sliceStep v a b s` of `ieval` on `.sliceStep _ a b s` / `.sliceStepCurrent a b s`. -/
 theorem stepPhase_step (child : Option INode) (hs hp : Bool) (start stop : Int) (s : PState)
     (n : INode) (b : Bool) (s' : PState)
